@@ -9,12 +9,14 @@ import (
 	"net"
 	"os"
 	"sync"
+	"sync/atomic"
 	"time"
 
 	"github.com/douban/gobeansdb/cmem"
 	"github.com/douban/gobeansdb/config"
 	mc "github.com/douban/gobeansdb/memcache"
 	"github.com/douban/gobeansdb/store"
+	"github.com/douban/gobeansdb/verifhook"
 )
 
 type scriptConn struct {
@@ -229,6 +231,34 @@ func (s *testServer) waitConns(d time.Duration) error {
 func (s *testServer) stop() {
 	s.hstore.Close()
 	os.RemoveAll(s.home)
+}
+
+// rotation flush goroutines (spawned by the store when a data file rotates) are part of "data is flushed":
+// count them through the hook points and wait for them before reading the counters.
+var rotStarted, rotDone int64
+
+func init() {
+	verifhook.Set(func(name string, args ...interface{}) {
+		switch name {
+		case "ds.rotate":
+			atomic.AddInt64(&rotStarted, 1)
+		case "ds.flush.exit":
+			if chunk, ok := args[1].(int); ok && chunk >= 0 {
+				atomic.AddInt64(&rotDone, 1)
+			}
+		}
+	})
+}
+
+func waitRotationFlushes() error {
+	deadline := time.Now().Add(20 * time.Second)
+	for atomic.LoadInt64(&rotDone) < atomic.LoadInt64(&rotStarted) {
+		if time.Now().After(deadline) {
+			return infraf("rotation flush goroutines did not finish")
+		}
+		time.Sleep(100 * time.Microsecond)
+	}
+	return nil
 }
 
 // counters returns a description of non-zero accounting at quiescence ("" = all zero).
